@@ -415,7 +415,7 @@ def single_ops(L, nrows, arr, mt, tier):
 
 
 def exhaustive_block(tier, flags):
-    shapes = ([(1, 4, "AC-"), (2, 3, "A-"), (3, 2, "A-")] if tier == "quick"
+    shapes = ([(1, 3, "AC-"), (1, 4, "A-"), (2, 3, "A-"), (3, 2, "A-")] if tier == "quick"
               else [(1, 5, "AC-"), (2, 4, "A-"), (2, 3, "AC-"), (3, 3, "A-"), (3, 2, "AC-")])
     cases = []
     seen = set()
@@ -695,6 +695,9 @@ def run(tier: str, seed: int) -> int:
         partial=PARTIAL, exhaustive=False,
     )
     pure = [d for d in disagreements if not d.get("flagged_by_oracle")]
+    import os
+    if os.environ.get("C03_DEBUG"):
+        open("/tmp/c03_disagreements.json", "w").write(json.dumps(disagreements[:200], indent=1, default=str))
     core.conclude(rep, pr, f"{len(cases)} cases / {stats['evals']} operation evaluations against the string oracle", pure[:3],
                   "Model.AlignedRun.run_case vs cogent3.core.alignment", tier, PROP)
     return rep.finish("proof")
